@@ -1,6 +1,6 @@
 //! C01: the four date forms (calendar, ordinal, ISO week, day number), accessors, succ/pred, Ord.
 use crate::val::*;
-use chrono::{Datelike, NaiveDate, NaiveTime, Weekday};
+use chrono::{Datelike, NaiveDate, NaiveDateTime, NaiveTime, Weekday};
 
 /// The crate-internal `NaiveDate::num_days_from_ce` (the duplicate of the `Datelike` provided
 /// method) is reached through `DateTime::<Utc>::timestamp()`.  Only differences of timestamps are
@@ -82,6 +82,29 @@ pub fn dispatch(op: &str, a: &[Val]) -> Option<Val> {
             if !(i32::MIN < lo && lo <= hi && hi < i32::MAX && (hi as i64 - lo as i64) <= 1_048_576) { return None; }
             Some(vint(range(lo, hi)))
         })(),
+        // remaining accessors of the date forms, the day number through NaiveDateTime and the From
+        // conversions, and the panicking twins of the constructors / succ / pred
+        "d.acc2" => (|| {
+            let d = dec_date(a.get(0)?)?;
+            let n = NaiveDateTime::from(d);
+            Some(vtup(vec![vbool(d.leap_year()), vint(d.iso_week().week0()), vint(Datelike::num_days_from_ce(&n)),
+                           enc_date(NaiveDate::from(n))]))
+        })(),
+        #[allow(deprecated)]
+        "d.pymd" => (|| Some(enc_date(NaiveDate::from_ymd(a.get(0)?.i32()?, a.get(1)?.u32()?, a.get(2)?.u32()?))))(),
+        #[allow(deprecated)]
+        "d.pyo" => (|| Some(enc_date(NaiveDate::from_yo(a.get(0)?.i32()?, a.get(1)?.u32()?))))(),
+        #[allow(deprecated)]
+        "d.pisoywd" => (|| {
+            let (y, w, wd) = (a.get(0)?.i32()?, a.get(1)?.u32()?, dec_wd(a.get(2)?)?);
+            Some(enc_date(NaiveDate::from_isoywd(y, w, wd)))
+        })(),
+        #[allow(deprecated)]
+        "d.pdays" => (|| Some(enc_date(NaiveDate::from_num_days_from_ce(a.get(0)?.i32()?))))(),
+        #[allow(deprecated)]
+        "d.psucc" => (|| Some(enc_date(dec_date(a.get(0)?)?.succ())))(),
+        #[allow(deprecated)]
+        "d.ppred" => (|| Some(enc_date(dec_date(a.get(0)?)?.pred())))(),
         _ => return None,
     };
     Some(r.unwrap_or_else(bad))
